@@ -153,7 +153,7 @@ public:
 			throw erational_divide_by_zero();
 		}
 #else
-		std::cerr << "erational_divide_by_zero\n";
+		if (rhs.iszero()) std::cerr << "erational_divide_by_zero\n";
 #endif
 		negative = !((negative && rhs.negative) || (!negative && !rhs.negative));
 		numerator *= rhs.denominator;
@@ -271,7 +271,7 @@ protected:
 			throw erational_divide_by_zero();
 		}
 #else
-		std::cerr << "erational_divide_by_zero\n";
+		if (b.iszero()) std::cerr << "erational_divide_by_zero\n";
 #endif
 		while (a % b > 0) {
 			r = a % b;
